@@ -109,6 +109,23 @@ def run_reshape():
         raise ToolError("self-test failed: never dropping the removed component does not violate ExactlyOnce")
     return r
 
+def run_ledger():
+    """spec/Ledger.tla: drop ledger of the table operations that keep an entity's shape (push, swap_remove
+    per column with the shared length, clear, clone / clone_from, drop), with two self-test designs."""
+    key = content_key()
+    r = cache_get("ledger", key)
+    if not r:
+        r = {}
+        for d, cfg in (("ok", "Ledger.cfg"), ("stale", "Ledger_stale.cfg"), ("overwrite", "Ledger_overwrite.cfg")):
+            x = tlc_mc("Ledger.tla", cfg, os.path.join(WORK, "mc", "ledger-%s.meta" % d), workers=4, timeout=600)
+            r[d] = {"ok": x["ok"], "violated": x["violated"], "distinct": x["distinct"], "generated": x["generated"]}
+        cache_put("ledger", key, r)
+    for d, why in (("stale", "decrementing the shared length inside the per-column swap_remove loop"),
+                   ("overwrite", "clone_from that overwrites cells without dropping them")):
+        if r[d]["ok"]:
+            raise ToolError("self-test failed: Ledger.tla accepts " + why)
+    return r
+
 def run_world_prop(prop, tier, seed, replay):
     t0 = time.time()
     sched_replay = None
@@ -159,6 +176,10 @@ def run_world_prop(prop, tier, seed, replay):
             mc = [{"cfg": "Reshape_last.cfg", "desc": "row move of Entry::add / Entry::remove through the packed buffer, every instance over 3 components, <=3 + <=2 rows, every moved row: the removed value is dropped exactly once and nothing else is (self-tests: the pinned design violates ExactlyOnce, the drop-in-the-middle design violates Consistent)",
                    "ok": r["last"]["ok"], "generated": r["last"]["generated"], "distinct": r["last"]["distinct"],
                    "violated": r["last"]["violated"], "log": "-", "wall": 0}]
+            lg = run_ledger()
+            mc.append({"cfg": "Ledger.cfg", "desc": "drop ledger of the shape-preserving table operations (push, per-column swap_remove under the shared length, clear, clone / clone_from, drop) on 2 tables x 2 columns x <=3 rows, 20 value identities: ExactlyOnce / NoLeak / NoDangling / NoAlias (self-tests: a length decremented inside the column loop and a clone_from that overwrites without dropping must each violate an invariant)",
+                       "ok": lg["ok"]["ok"], "generated": lg["ok"]["generated"], "distinct": lg["ok"]["distinct"],
+                       "violated": lg["ok"]["violated"], "log": "-", "wall": 0})
         if prop == "C09":
             key = content_key()
             mc = cache_get("mcpar", key) or []
@@ -227,7 +248,7 @@ def run_world_prop(prop, tier, seed, replay):
         cov["transitions"] = sum(m["generated"] for m in mc)
         cov["model_instances"] = [{k: m[k] for k in ("cfg", "desc", "distinct", "generated", "ok")} for m in mc]
         cov["model_invariant"] = {"C09": "EveryRowOnce / NeverTwice / SlicesAgree", "C11": "Inv_C11 / Inv_C11_Pairs / Inv_RoundTrip (MCSerde)",
-                                  "C06": "Inv_C06 (MCWorld) + Inv_RoundTrip (MCSerde)", "C05": "Recorded / NoLeak / LenFits (Heap.tla)", "C04": "ExactlyOnce / Consistent / Moved (Reshape.tla)"}.get(prop, MC_INV.get(prop))
+                                  "C06": "Inv_C06 (MCWorld) + Inv_RoundTrip (MCSerde)", "C05": "Recorded / NoLeak / LenFits (Heap.tla)", "C04": "ExactlyOnce / Consistent / Moved (Reshape.tla); ExactlyOnce / NoLeak / NoDangling / NoAlias (Ledger.tla)"}.get(prop, MC_INV.get(prop))
     assumptions = [
         "the harness executes and logs faithfully (worlddrv); the brood_verif dump hook is read-only",
         "bounded: histories of the stated length, <=3 live worlds, <=~12 live entities per world",
